@@ -20,12 +20,17 @@ pub struct SphereCase {
     msg_base: u64,
     /// number of (key) cases sharing the run's false-alarm budget
     tests: u32,
+    /// every signature is the first one emitted after this many attempts that the signer itself
+    /// discarded (forced through the signer's byte stream, see `util::RestartRng`)
+    #[serde(default)]
+    restarts: usize,
 }
 
 pub struct Spherical {
     pub signatures512: usize,
     pub signatures1024: usize,
     pub tests: u32,
+    pub restarts: usize,
 }
 
 /// z for the pooled and per-bin second-moment tests (two-sided normal tail 8e-11 each).
@@ -69,9 +74,9 @@ impl Sub for Spherical {
         1
     }
     fn strategy(&self, _env: &Env) -> BoxedStrategy<SphereCase> {
-        let (s512, s1024, tests) = (self.signatures512, self.signatures1024, self.tests);
+        let (s512, s1024, tests, restarts) = (self.signatures512, self.signatures1024, self.tests, self.restarts);
         (prop_oneof![2 => Just(512usize), 1 => Just(1024usize)], any::<[u8; 32]>(), any::<u64>())
-            .prop_map(move |(n, s, msg_base)| SphereCase { n, seed: seed_hex(&s), signatures: if n == 512 { s512 } else { s1024 }, msg_base, tests })
+            .prop_map(move |(n, s, msg_base)| SphereCase { n, seed: seed_hex(&s), signatures: if n == 512 { s512 } else { s1024 }, msg_base, tests, restarts })
             .boxed()
     }
     fn check(&self, c: &SphereCase, st: &mut Stats) -> Result<(), Fail> {
@@ -100,6 +105,7 @@ impl Sub for Spherical {
         let other_variant = api::key(if n == 512 { 1024 } else { 512 }, crate::util::seed32(mix(c.msg_base ^ 0x0715E)));
         let stop_noise = std::sync::atomic::AtomicBool::new(false);
         let noise_signatures = std::sync::atomic::AtomicU64::new(0);
+        let extra_retries = std::sync::atomic::AtomicU64::new(0);
         let sigs: Vec<Result<Vec<f64>, Fail>> = std::thread::scope(|noise_scope| {
             for t in 0..6 {
                 let (stop, made) = (&stop_noise, &noise_signatures);
@@ -126,8 +132,20 @@ impl Sub for Spherical {
                     s.0 = tag;
                     s.1 = key.sk.clone();
                 }
-                api::sign_with(&msg, &slot.as_ref().unwrap().1, Box::new(crate::util::chacha(mix(c.msg_base) ^ j as u64))).to_bytes()
-            });
+                if c.restarts == 0 {
+                    return Ok(api::sign_with(&msg, &slot.as_ref().unwrap().1, Box::new(crate::util::chacha(mix(c.msg_base) ^ j as u64))).to_bytes());
+                }
+                let _ = falcon_rust::verif_hooks::take_sign_counters();
+                let sig = api::sign_with(&msg, &slot.as_ref().unwrap().1, Box::new(crate::util::RestartRng::new(mix(c.msg_base) ^ j as u64, n, c.restarts))).to_bytes();
+                let (norm, comp) = falcon_rust::verif_hooks::take_sign_counters();
+                // the forcing must have done exactly what it is meant to do, or the sample says
+                // nothing about the signer: that is a harness problem, not a violation
+                if (norm as usize) < c.restarts {
+                    return Err(Fail::new("harness:forcing", format!("forced {} discarded attempts but the signer counted only {} norm retries", c.restarts, norm)));
+                }
+                extra_retries.fetch_add(norm + comp - c.restarts as u64, std::sync::atomic::Ordering::Relaxed);
+                Ok(sig)
+            })?;
             let s2 = codec::decode(&sig[41..], n).ok_or_else(|| Fail::new("sphere:malformed", "an honest signature does not decompress"))?;
             let mut r_cat_m = sig[1..41].to_vec();
             r_cat_m.extend_from_slice(&msg);
@@ -144,6 +162,14 @@ impl Sub for Spherical {
             out
         });
         st.add("signatures_made_concurrently_by_other_keys", noise_signatures.load(std::sync::atomic::Ordering::Relaxed));
+        if c.restarts > 0 {
+            // honest attempts fail about once in 10^4..10^6: more than that means forced bytes reached
+            // the attempt that was meant to be honest
+            let extra = extra_retries.load(std::sync::atomic::Ordering::Relaxed);
+            ensure!(extra as usize <= 2 + count / 50, "harness:forcing", "{} unforced retries in {} signatures: the forcing stream is not aligned with the signer's attempts", extra, count);
+            st.add("signatures_emitted_after_forced_restarts", count as u64);
+            st.add(&format!("keys_with_{}_forced_restarts", c.restarts), 1);
+        }
         let mut vecs: Vec<Vec<f64>> = Vec::with_capacity(count);
         for s in sigs {
             vecs.push(s?);
@@ -280,7 +306,8 @@ const META: Meta = Meta {
 pub fn run(env: &Env, replay: Option<&Path>) -> i32 {
     let mut report = Report::new();
     let (k512, k1024, s512, s1024) = env.tier.pick((2usize, 1usize, 4000usize, 2000usize), (16, 8, 20_000, 10_000));
-    let sub = Spherical { signatures512: s512, signatures1024: s1024, tests: (k512 + k1024) as u32 };
+    let tests = (k512 + k1024 + 2) as u32;
+    let sub = Spherical { signatures512: s512, signatures1024: s1024, tests, restarts: 0 };
     let subs: [&dyn DynSub; 1] = [&sub];
     if let Some(p) = replay {
         if let Err(e) = replay_file(env, &subs, p, &mut report) {
@@ -294,7 +321,10 @@ pub fn run(env: &Env, replay: Option<&Path>) -> i32 {
         .into_iter()
         .map(|s| (1024usize, s))
         .chain(api::seed_list(env.seed, 0xC10, k512).into_iter().map(|s| (512usize, s)))
-        .map(|(n, s)| SphereCase { n, seed: seed_hex(&s), signatures: if n == 512 { s512 } else { s1024 }, msg_base: mix(env.seed ^ 0xC10), tests: (k512 + k1024) as u32 })
+        .map(|(n, s)| SphereCase { n, seed: seed_hex(&s), signatures: if n == 512 { s512 } else { s1024 }, msg_base: mix(env.seed ^ 0xC10), tests, restarts: 0 })
+        // and the signatures a signer emits after it has discarded one or two attempts itself
+        .chain(api::seed_list(env.seed, 0xC10_0001, 1).into_iter().map(|s| SphereCase { n: 512, seed: seed_hex(&s), signatures: s512 / 2, msg_base: mix(env.seed ^ 0xC10_0001), tests, restarts: 1 }))
+        .chain(api::seed_list(env.seed, 0xC10_0002, 1).into_iter().map(|s| SphereCase { n: 1024, seed: seed_hex(&s), signatures: s1024 / 2, msg_base: mix(env.seed ^ 0xC10_0002), tests, restarts: 2 }))
         .collect();
     drive_enumerated(env, &sub, cases.into_iter(), &mut report);
     finish(env, report, &META)
